@@ -1,6 +1,8 @@
 import RpmVerif.Model.Builder
 import RpmVerif.Model.Getters
 import RpmVerif.Model.Digest
+import RpmVerif.Model.PgpFraming
+import RpmVerif.Gen.SigLegacyTags
 /-!
 # L4: signing histories — model of `Package::{sign_with_timestamp, clear_signatures, verify_signature,
 signature_key_ids}` (`src/rpm/package.rs`) over an ABSTRACT signature scheme
@@ -63,6 +65,45 @@ def B64 : Prop := ∀ s, S.b64dec (S.b64enc s) = some s
 def LegacyOk : Prop := ∀ k, S.legacyTag k = SigTag.RPMSIGTAG_RSA ∨ S.legacyTag k = SigTag.RPMSIGTAG_DSA
 
 end SigScheme
+
+/-! ### `Verifier::parse_signature` inside the scheme
+
+`SigScheme.issuer` is an opaque function of the whole signature blob. What rpm-rs's own code does there is
+`Verifier::parse_signature(blob)?` (`Pgp.parseSignature`: framing by `split_packets`, then the FIRST packet the `pgp`
+crate's parser returns as a signature) followed by `.issuer()` on the parsed packet — in `signature_key_ids` — or by the
+`match signature.config.pub_alg` of `SignatureHeaderBuilder::build`. `PktParser` is the `pgp` crate seen one packet at a
+time; `framedIssuer` / `builderTag` are the two compositions; `SigScheme.withParser` plugs the first into a scheme. -/
+
+/-- the `pgp` crate's packet parser, one packet at a time, and what rpm-rs reads from a parsed signature -/
+structure PktParser where
+  σ : Type
+  /-- `PacketParser::new(Cursor::new(packet)).next()` is `Some(Ok(Packet::Signature(s)))` -/
+  parsePkt : Bytes → Option σ
+  /-- `s.issuer()`, each key id as the text `format!("{:x}", id)` -/
+  issuers : σ → List Bytes
+  /-- `u8::from(s.config.pub_alg)` -/
+  pubAlg : σ → Nat
+
+/-- `Verifier::parse_signature(sig)` then `.issuer()`; `none` = `NoSignatureFound` -/
+def framedIssuer (P : PktParser) (sig : Bytes) : Option (List Bytes) :=
+  (Pgp.parseSignature P.parsePkt sig).map P.issuers
+
+/-- the scheme whose `issuer` is `parse_signature` + `issuer()` over the packet parser `P` -/
+def SigScheme.withParser (S : SigScheme) (P : PktParser) : SigScheme := { S with issuer := framedIssuer P }
+
+/-- `S.issuer` IS that composition -/
+def SigScheme.Framed (S : SigScheme) (P : PktParser) : Prop := ∀ b, S.issuer b = framedIssuer P b
+
+/-- the legacy tag `SignatureHeaderBuilder::build` picks for one signature blob: `parse_signature(sig_bytes)?`, then the
+arms of `match signature.config.pub_alg` (table scraped from the source, `Gen.sigLegacyTagOfAlg`); every other
+algorithm is `UnsupportedPGPKeyType` -/
+def builderTag (P : PktParser) (sig : Bytes) (tbl : List (Nat × Nat) := Gen.sigLegacyTagOfAlg) : Out Nat :=
+  match Pgp.parseSignature P.parsePkt sig with
+  | none => .err "nosig"
+  | some s =>
+    match tbl.lookup (P.pubAlg s) with
+    | some tag => .ok tag
+    | none => .err "keytype"
 
 /-! ### the operations -/
 
